@@ -226,7 +226,7 @@ def _send_frame_unit(u: U, which):
 
 @unit("C11", "send_frame.discipline", functions=[f"{WMOD}:WebSocketWriter.send_frame",
                                                  f"{WMOD}:WebSocketWriter._send_compressed_frame_sync",
-                                                 f"{WMOD}:WebSocketWriter._get_compressor"])
+                                                 f"{WMOD}:WebSocketWriter._get_compressor"], also=("C13",))
 def send_frame_discipline(u: U):
     """RSV1 iff the frame went through the compressor and opcode < 8; the shared compressor is touched only while
     _send_lock is held; large frames are compressed in a shielded task; closing writers refuse data frames."""
@@ -288,6 +288,9 @@ def send_frame_discipline(u: U):
     u.check("C11.closing.refuses_data",
             Implies(And(closing0, opcode < 8), And(not out.ok, len(frames) == 0, len(asynclocked) == 0)),
             "a closing writer refuses every data frame before writing (no data frame after the close frame)")
+    u.check("C13.writer.no_data_frame_after_close",
+            Implies(And(closing0, opcode < 8), And(not out.ok, len(frames) == 0, len(asynclocked) == 0)),
+            "once the close frame was sent (_closing) send_frame refuses every data frame before writing a byte")
     u.check("C11.lock.compressor_only_under_lock", all(e[1] is True for e in comp_events),
             "compress/flush of the (shared) compressor only while _send_lock is held")
     u.check("C11.lock.compressed_write_under_lock", all(e[3] is True for e in frames if e[2] != 0),
